@@ -532,8 +532,8 @@ theorem take_succ_of_getElem? {α : Type} (l : List α) (k : Nat) (a : α) (h : 
   rw [take_add_one, h]; rfl
 
 /-- `dequeue`, fast path: pop the head of `safe_done` -/
-theorem InvA.deqFast {s : State} {it : Item} {r : List Item} (h : InvA s) (hs : s.safeDone = it :: r)
-    (hic : s.itemCount ≠ 0) : InvA (deqReturn { s with safeDone := r } it) := by
+theorem InvA.deqFast {s : State} {it : Item} {r : List Item} (c : List Op) (h : InvA s) (hs : s.safeDone = it :: r)
+    (hic : s.itemCount ≠ 0) : InvA (deqReturn { s with safeDone := r, calls := c } it) := by
   have hsafe := h.safe
   rw [hs] at hsafe
   simp only [tks, map_cons, length_cons, range'_succ, cons.injEq] at hsafe
@@ -713,7 +713,7 @@ theorem invA_stepMain (cfg : Cfg) {s s' : State} (c : MChoice) (h : InvA s)
       split at hs
       · rename_i it r hsd
         simp only [Option.some.injEq] at hs; subst hs
-        exact h.deqFast hsd hic
+        exact h.deqFast _ hsd hic
       · rename_i hsd
         simp only [Option.some.injEq] at hs; subst hs
         exact h.frame rfl rfl rfl rfl rfl rfl rfl rfl rfl rfl rfl rfl (fun _ => ⟨hsd, hic⟩)
@@ -1643,5 +1643,283 @@ theorem mu_decreases (cfg : Cfg) {s s' : State} (c : Choice) (hs : stepStrict cf
           · simp only [Option.some.injEq] at hs; subst hs
             simp [mainInCall] at hin'
         · simp at hs
+
+theorem rets_ne_self (l : List Ret) (x : Ret) : l ≠ l ++ [x] := by
+  intro h
+  have := congrArg List.length h
+  simp at this
+
+/-! ### a failure-free threaded pool refines the serial pool -/
+
+/-- simulation relation: the serial pool run on the calls that have *returned* has produced the same return
+values, and (until `destroy` returns) its queue is what the threaded pool still owes the caller -/
+def InvR (cfg : Cfg) (s : State) : Prop :=
+  ∃ cdone : List Op, s.calls = cdone ++ (mainPending s.main).toList ∧
+    (Serial.run cfg.rcOf Serial.init cdone).rets = s.rets ∧
+    (s.main ≠ .finished →
+      (Serial.run cfg.rcOf Serial.init cdone).queue = s.submitted.drop s.returned.length ∧
+      (Serial.run cfg.rcOf Serial.init cdone).status = 0)
+
+theorem invR_init (cfg : Cfg) (n : Nat) : InvR cfg (init n) :=
+  ⟨[], rfl, rfl, fun _ => ⟨rfl, rfl⟩⟩
+
+/-- steps that change nothing the relation looks at -/
+theorem InvR.frame {cfg : Cfg} {s s' : State} (h : InvR cfg s) (hc : s'.calls = s.calls)
+    (hp : mainPending s'.main = mainPending s.main) (hr : s'.rets = s.rets) (hsub : s'.submitted = s.submitted)
+    (hret : s'.returned = s.returned) (hf : s'.main ≠ .finished → s.main ≠ .finished) : InvR cfg s' := by
+  obtain ⟨cdone, h1, h2, h3⟩ := h
+  exact ⟨cdone, by rw [hc, hp]; exact h1, by rw [hr]; exact h2, fun hx => by rw [hsub, hret]; exact h3 (hf hx)⟩
+
+theorem mainPending_wakeMain (m : MPc) : mainPending (wakeMain m) = mainPending m := by
+  cases m <;> rfl
+
+theorem wakeMain_finished (m : MPc) : wakeMain m ≠ .finished → m ≠ .finished := by
+  cases m <;> simp [wakeMain]
+
+theorem getNextWork_frame (s : State) (i : Nat) :
+    (getNextWork s i).calls = s.calls ∧ (getNextWork s i).main = s.main ∧ (getNextWork s i).rets = s.rets ∧
+    (getNextWork s i).submitted = s.submitted ∧ (getNextWork s i).returned = s.returned := by
+  unfold getNextWork
+  split
+  · exact ⟨rfl, rfl, rfl, rfl, rfl⟩
+  · split <;> exact ⟨rfl, rfl, rfl, rfl, rfl⟩
+
+theorem invR_stepWorker (cfg : Cfg) {s s' : State} (i : Nat) (spur : Bool) (h : InvR cfg s)
+    (hs : stepWorker cfg s i spur = some s') : InvR cfg s' := by
+  unfold stepWorker at hs
+  split at hs
+  · simp at hs
+  · split at hs
+    · simp at hs
+    · simp only [Option.some.injEq] at hs; subst hs
+      obtain ⟨a, b, c, d, e⟩ := getNextWork_frame s i
+      exact h.frame a (by rw [b]) c d e (by rw [b]; exact id)
+  · split at hs
+    · simp only [Option.some.injEq] at hs; subst hs
+      obtain ⟨a, b, c, d, e⟩ := getNextWork_frame s i
+      exact h.frame a (by rw [b]) c d e (by rw [b]; exact id)
+    · simp at hs
+  · split at hs
+    · simp at hs
+    · simp only [Option.some.injEq] at hs; subst hs
+      exact h.frame rfl rfl rfl rfl rfl id
+  · rename_i it rc hi
+    split at hs
+    · simp at hs
+    · simp only [Option.some.injEq] at hs; subst hs
+      obtain ⟨a, b, c, d, e⟩ := getNextWork_frame
+        { s with done := insertDone it s.done, status := if rc ≠ 0 ∧ s.status = 0 then rc else s.status,
+                 main := wakeMain s.main, workers := s.workers.set i .start } i
+      refine h.frame a ?_ c d e ?_
+      · rw [b]; exact mainPending_wakeMain _
+      · rw [b]; exact wakeMain_finished _
+  · simp at hs
+
+/-- one more completed call: the serial pool makes the same call -/
+theorem InvR.complete {cfg : Cfg} {s' : State} {cdone : List Op} (op : Op)
+    (hcalls : s'.calls = (cdone ++ [op]) ++ (mainPending s'.main).toList)
+    (hrets : (Serial.call cfg.rcOf (Serial.run cfg.rcOf Serial.init cdone) op).rets = s'.rets)
+    (hq : s'.main ≠ .finished →
+      (Serial.call cfg.rcOf (Serial.run cfg.rcOf Serial.init cdone) op).queue = s'.submitted.drop s'.returned.length ∧
+      (Serial.call cfg.rcOf (Serial.run cfg.rcOf Serial.init cdone) op).status = 0) : InvR cfg s' := by
+  refine ⟨cdone ++ [op], hcalls, ?_, ?_⟩
+  · rw [Serial.run_append]; exact hrets
+  · rw [Serial.run_append]; exact hq
+
+theorem drop_eq_cons_of_getElem? {α : Type} (l : List α) (k : Nat) (a : α) (h : l[k]? = some a) :
+    l.drop k = a :: l.drop (k + 1) := by
+  obtain ⟨hk, ha⟩ := List.getElem?_eq_some_iff.1 h
+  rw [← ha]; exact drop_eq_getElem_cons hk
+
+theorem invR_stepMain (cfg : Cfg) {n : Nat} {s s' : State} (c : MChoice) (hok : ∀ d, cfg.rcOf d = 0)
+    (hreach : Reachable cfg n s) (h : InvR cfg s) (hs : stepMain cfg s c = some s') : InvR cfg s' := by
+  have hA := invA_reachable hreach
+  have hC := invC_reachable hreach
+  have hst0 : ¬ s.main.inJoin → s.status = 0 := by
+    intro hj
+    rcases Decidable.em (s.status = 0) with h0 | h0
+    · exact h0
+    · rcases hC.statusFrom h0 with h1 | ⟨p, _, hp⟩
+      · exact absurd h1 hj
+      · rw [hok] at hp; exact absurd hp.symm h0
+  obtain ⟨cdone, h1, h2, h3⟩ := h
+  -- handing back item `it` with `it.ticket = returned.length`
+  have hand : ∀ it : Item, s.submitted[s.returned.length]? = some it.data → s.main ≠ .finished →
+      (Serial.call cfg.rcOf (Serial.run cfg.rcOf Serial.init cdone) .dequeue).rets = s.rets ++ [.deq (some it.data)] ∧
+      (Serial.call cfg.rcOf (Serial.run cfg.rcOf Serial.init cdone) .dequeue).queue
+        = s.submitted.drop (s.returned ++ [it.data]).length ∧
+      (Serial.call cfg.rcOf (Serial.run cfg.rcOf Serial.init cdone) .dequeue).status = 0 := by
+    intro it hd hnf
+    obtain ⟨hq, hz⟩ := h3 hnf
+    rw [drop_eq_cons_of_getElem? _ _ _ hd] at hq
+    simp only [Serial.call, hq, h2, hok, hz, length_append, length_singleton]
+    simp
+  -- the slow path of dequeue, from `deqLock` or a woken `deqWait`
+  have hdeq : s.main.inDeq → s.calls = cdone ++ [.dequeue] → InvR cfg (deqTry cfg s) := by
+    intro hin hcalls
+    have hnf : s.main ≠ .finished := by intro hx; rw [hx] at hin; exact hin
+    have h0 := hst0 (by intro hx; cases hmm : s.main <;> simp_all [MPc.inJoin, MPc.inDeq])
+    obtain ⟨hsd, _⟩ := hA.mainDeq hin
+    have hnd := hA.nd
+    rw [hsd] at hnd
+    simp only [length_nil, Nat.add_zero] at hnd
+    have hwait : InvR cfg (deqWaitOrNull cfg s) := by
+      unfold deqWaitOrNull
+      split
+      · rename_i hc
+        simp only [Bool.and_eq_true, decide_eq_true_eq] at hc
+        exact absurd h0 hc.2
+      · exact ⟨cdone, by simp [mainPending, hcalls], h2, fun _ => h3 hnf⟩
+    unfold deqTry
+    split
+    · exact hwait
+    · rename_i it r hd
+      split
+      · rename_i ht
+        have hdat := hA.data it (Or.inr (Or.inl (by rw [hd]; exact mem_cons_self)))
+        rw [ht, hnd] at hdat
+        obtain ⟨r1, r2, r3⟩ := hand it hdat hnf
+        exact InvR.complete (cdone := cdone) .dequeue (by simp [deqReturn, mainPending, hcalls]) r1 (fun _ => ⟨r2, r3⟩)
+      · exact hwait
+  cases hm : s.main with
+  | idle =>
+    have hp : (mainPending s.main).toList = [] := by rw [hm]; rfl
+    rw [hp, append_nil] at h1
+    have hnf : s.main ≠ .finished := by rw [hm]; simp
+    cases c with
+    | cont spur => simp [stepMain, hm] at hs
+    | call op =>
+      cases op with
+      | submit d =>
+        simp only [stepMain, hm, Option.some.injEq] at hs; subst hs
+        exact ⟨cdone, by simp [mainPending, h1], h2, fun _ => h3 hnf⟩
+      | getStatus =>
+        simp only [stepMain, hm, Option.some.injEq] at hs; subst hs
+        exact ⟨cdone, by simp [mainPending, h1], h2, fun _ => h3 hnf⟩
+      | destroy =>
+        simp only [stepMain, hm, Option.some.injEq] at hs; subst hs
+        exact ⟨cdone, by simp [mainPending, h1], h2, fun _ => h3 hnf⟩
+      | dequeue =>
+        simp only [stepMain, hm] at hs
+        split at hs
+        · -- empty pool: NULL
+          rename_i hic
+          simp only [Option.some.injEq] at hs; subst hs
+          obtain ⟨hq, hz⟩ := h3 hnf
+          have hlen : s.returned.length = s.submitted.length := by have := hA.ic; omega
+          rw [hlen, drop_length] at hq
+          refine InvR.complete (cdone := cdone) .dequeue (by simp [mainPending, hm, h1]) ?_ ?_
+          · simp [Serial.call, hq, h2]
+          · intro _; simp only [Serial.call, hq]; rw [hlen, drop_length]; exact ⟨rfl, hz⟩
+        · split at hs
+          · -- fast path
+            rename_i hic it r hsd
+            simp only [Option.some.injEq] at hs; subst hs
+            have hsafe := hA.safe
+            rw [hsd] at hsafe
+            simp only [tks, map_cons, length_cons, range'_succ, cons.injEq] at hsafe
+            have hd := hA.data it (Or.inr (Or.inr (Or.inl (by rw [hsd]; exact mem_cons_self))))
+            rw [hsafe.1] at hd
+            obtain ⟨r1, r2, r3⟩ := hand it hd hnf
+            exact InvR.complete (cdone := cdone) .dequeue (by simp [deqReturn, mainPending, h1]) r1 (fun _ => ⟨r2, r3⟩)
+          · simp only [Option.some.injEq] at hs; subst hs
+            exact ⟨cdone, by simp [mainPending, h1], h2, fun _ => h3 hnf⟩
+  | finished =>
+    cases c <;> simp [stepMain, hm] at hs
+  | submitLock d =>
+    have hnf : s.main ≠ .finished := by rw [hm]; simp
+    have h0 := hst0 (by rw [hm]; simp [MPc.inJoin])
+    cases c with
+    | call op => simp [stepMain, hm] at hs
+    | cont spur =>
+      cases spur with
+      | true => simp [stepMain, hm] at hs
+      | false =>
+        simp only [stepMain, hm, Option.some.injEq] at hs; subst hs
+        obtain ⟨hq, hz⟩ := h3 hnf
+        have hle : s.returned.length ≤ s.submitted.length := by have := hA.ic; omega
+        rw [hm] at h1
+        refine InvR.complete (cdone := cdone) (.submit d) (by simp [submitBody, h0, mainPending] at h1 ⊢; exact h1) ?_ ?_
+        · simp [Serial.call, hz, h2, submitBody, h0]
+        · intro _
+          simp only [Serial.call, hz, submitBody, h0]
+          simp [hq, drop_append_of_le_length hle]
+  | statusLock =>
+    have h0 := hst0 (by rw [hm]; simp [MPc.inJoin])
+    have hnf : s.main ≠ .finished := by rw [hm]; simp
+    cases c with
+    | call op => simp [stepMain, hm] at hs
+    | cont spur =>
+      cases spur with
+      | true => simp [stepMain, hm] at hs
+      | false =>
+        simp only [stepMain, hm, Option.some.injEq] at hs; subst hs
+        obtain ⟨hq, hz⟩ := h3 hnf
+        rw [hm] at h1
+        refine InvR.complete (cdone := cdone) .getStatus (by simp [mainPending] at h1 ⊢; exact h1) ?_ ?_
+        · simp [Serial.call, hz, h2, h0]
+        · intro _; exact ⟨by simp [Serial.call, hq], by simp [Serial.call, hz]⟩
+  | destroyLock =>
+    cases c with
+    | call op => simp [stepMain, hm] at hs
+    | cont spur =>
+      cases spur with
+      | true => simp [stepMain, hm] at hs
+      | false =>
+        simp only [stepMain, hm, Option.some.injEq] at hs; subst hs
+        rw [hm] at h1
+        by_cases hn : s.workers.length = 0
+        · refine InvR.complete (cdone := cdone) .destroy (by simp [hn, mainPending] at h1 ⊢; exact h1) ?_ ?_
+          · simp [Serial.call, h2, hn]
+          · intro hx; simp [hn] at hx
+        · refine ⟨cdone, by simp [hn, mainPending] at h1 ⊢; exact h1, by simp [hn, h2], ?_⟩
+          intro _; exact h3 (by rw [hm]; simp)
+  | join i =>
+    cases c with
+    | call op => simp [stepMain, hm] at hs
+    | cont spur =>
+      cases spur with
+      | true => simp [stepMain, hm] at hs
+      | false =>
+        simp only [stepMain, hm] at hs
+        rw [hm] at h1
+        split at hs
+        · split at hs
+          · simp only [Option.some.injEq] at hs; subst hs
+            exact ⟨cdone, by simp [mainPending] at h1 ⊢; exact h1, h2, fun _ => h3 (by rw [hm]; simp)⟩
+          · simp only [Option.some.injEq] at hs; subst hs
+            refine InvR.complete (cdone := cdone) .destroy (by simp [mainPending] at h1 ⊢; exact h1) ?_ ?_
+            · simp [Serial.call, h2]
+            · intro hx; simp at hx
+        · simp at hs
+  | deqLock =>
+    rw [hm] at h1
+    cases c with
+    | call op => simp [stepMain, hm] at hs
+    | cont spur =>
+      cases spur with
+      | true => simp [stepMain, hm] at hs
+      | false =>
+        simp only [stepMain, hm, Option.some.injEq] at hs; subst hs
+        exact hdeq (by rw [hm]; trivial) (by simpa [mainPending] using h1)
+  | deqWait sig =>
+    rw [hm] at h1
+    cases c with
+    | call op => simp [stepMain, hm] at hs
+    | cont spur =>
+      simp only [stepMain, hm] at hs
+      split at hs
+      · simp only [Option.some.injEq] at hs; subst hs
+        exact hdeq (by rw [hm]; trivial) (by simpa [mainPending] using h1)
+      · simp at hs
+
+theorem invR_reachable {cfg : Cfg} {n : Nat} {s : State} (hok : ∀ d, cfg.rcOf d = 0) (hr : Reachable cfg n s) :
+    InvR cfg s := by
+  induction hr with
+  | init => exact invR_init cfg n
+  | step c hr' hs ih =>
+    cases c with
+    | main c => exact invR_stepMain cfg c hok hr' ih hs
+    | worker i spur => exact invR_stepWorker cfg i spur ih hs
 
 end Sqfs.Pool
